@@ -207,6 +207,13 @@ def run(ctx):
             ('resc_signed', 'rescale', 4, 6, dict(shapes='One23', veccat='SignedCat6', srcs=('free', 'part'),
                                                   freemasks='MasksUpTo1', families=('signed',), rots=(0, 1, 3),
                                                   emitmod=4), 300),
+            # proportional families in extreme units (1e-13, one RDM at 1e-10 of the others, 1e+8, mixed)
+            ('resc_units', 'rescale', 4, 6, dict(shapes='One23', veccat='PosCat6', srcs=('free', 'part'),
+                                                 freemasks='MasksUpTo1', factors=(1, 3), expcat='ExpCatDef',
+                                                 expids=(2, 3, 4, 5, 6), emitmod=25), 400),
+            # from_partials: partial RDMs listing their patterns in their own order, explicit / implicit combined list
+            ('partials', 'partials', 4, 6, dict(shapes='One12', allpcat='AllPCat4', allpids=(0, 1, 2, 3, 4, 5),
+                                                emitmod=6), 1500),
             # sessions of two mean calls sharing one weights object
             ('mean2', 'mean2', 4, 6, dict(shapes='One2', freemasks='MasksUpTo1', wkinds=('rdm', 'entry'),
                                           wcat='WCatDef', wecat='WECatDef', emitmod=8), 500),
@@ -238,6 +245,11 @@ def run(ctx):
                                                   emitmod=12), 3000),
             ('resc_signed3', 'rescale', 3, 3, dict(shapes='One23', veccat='SignedCat3', srcs=('free',), minkeep=1,
                                                    freemasks='MasksUpTo1', families=('signed',), rots=(0, 1, 2, 3)), 100),
+            ('resc_units', 'rescale', 4, 6, dict(shapes='One23', veccat='PosCat6', srcs=('free', 'part'),
+                                                 freemasks='MasksUpTo1', factors=(1, 2, 3), expcat='ExpCatDef',
+                                                 expids=(2, 3, 4, 5, 6), emitmod=12), 3000),
+            ('partials', 'partials', 4, 6, dict(shapes='One12', allpcat='AllPCat4', allpids=(0, 1, 2, 3, 4, 5)), 15000),
+            ('partials3', 'partials', 3, 3, dict(shapes='One123', allpcat='AllPCat3', allpids=(0, 1, 2, 3, 4)), 5000),
             ('mean2', 'mean2', 4, 6, dict(shapes='One23', freemasks='MasksUpTo1', wkinds=('rdm', 'entry'),
                                           wcat='WCatDef', wecat='WECatDef', emitmod=40, rots=(0, 2)), 3000),
             ('mean2b', 'mean2', 3, 3, dict(shapes='One23', freemasks='AllMasks', minkeep=0, wkinds=('rdm', 'entry'),
@@ -254,6 +266,8 @@ def run(ctx):
         if not r.n_emitted:
             raise MachineryError(f'{name}: TLC emitted nothing')
         tot, classes = replay(ctx, r, nc, name, floor=floor)
+        if name == 'resc_units' and sum(k for c, k in classes.items() if '/units' in c and 'not-converged' not in c) < 100:
+            raise MachineryError(f'{name}: vacuous - too few converged stacks in extreme units: {classes}')
         if name.startswith('resc_signed') and sum(k for c, k in classes.items()
                                                   if '/anti' in c and 'not-converged' not in c) < 20:
             raise MachineryError(f'{name}: vacuous - no stack with an RDM negatively related to the others: {classes}')
